@@ -99,6 +99,35 @@ theorem member_at_least_observer (e j : Nat) (v g : Bool) (me : Nat) (ct : Conte
   · rw [handshake_current_epoch_only _ _ _ _ (by decide)] at h ⊢; exact h
   · rw [handshake_current_epoch_only _ _ _ _ (by decide)] at h ⊢; exact h
 
+/-! ### wire format: application content only as a private message -/
+
+/-- Application content that does not come as a `PrivateMessage` is never admitted, by members and observers alike,
+whatever the epoch window (a current member can sign and MAC such a public message correctly: this test is then the only
+rejection). -/
+theorem public_application_rejected (e : Nat) (j : Option Nat) (v g : Bool) (me : Nat) :
+    checkMetadataW false e j v g me .application ≠ .ok := by
+  unfold checkMetadataW
+  split <;> simp_all
+
+/-- for every other combination the wire format plays no role in the admission -/
+theorem wire_format_irrelevant_otherwise (c : Bool) (e : Nat) (j : Option Nat) (v g : Bool) (me : Nat) (ct : ContentType)
+    (h : c = true ∨ ct ≠ .application) : checkMetadataW c e j v g me ct = checkMetadata e j v g me ct := by
+  unfold checkMetadataW
+  rcases h with rfl | h
+  · split <;> simp_all
+  · cases ct <;> first | exact absurd rfl h | (split <;> simp_all)
+
+/-- the wire-format test comes last: version, group and epoch errors are reported first -/
+theorem earlier_errors_win (c : Bool) (e : Nat) (j : Option Nat) (v g : Bool) (me : Nat) (ct : ContentType)
+    (h : checkMetadata e j v g me ct ≠ .ok) : checkMetadataW c e j v g me ct = checkMetadata e j v g me ct := by
+  unfold checkMetadataW
+  split <;> simp_all
+
+example : checkMetadataW false 10 (some 3) true true 9 .application = .unencryptedApplicationMessage := by decide
+example : checkMetadataW true 10 (some 3) true true 9 .application = .ok := by decide
+example : checkMetadataW false 10 (some 3) true true 10 .proposal = .ok := by decide
+example : checkMetadataW false 10 (some 3) true true 2 .application = .invalidEpoch := by decide
+
 /-! ### non-vacuity -/
 
 -- inside / at the edge of / outside the window
